@@ -50,6 +50,7 @@ pub fn main(args: &[String]) -> i32 {
         "worker" => {
             match args.get(1).map(|s| s.as_str()) {
                 Some("seq") => eseq::worker_main(),
+                Some("sweep") => crate::esweep::worker_main(),
                 other => eprintln!("unknown worker kind {other:?}"),
             }
             0
@@ -66,11 +67,154 @@ fn run_check(id: &str, tier: &str, replay: Option<&str>) -> i32 {
         "C01" | "C02" | "C07" | "C08" | "C09" | "C10" | "C11" | "C13" | "C14" | "C18" => {
             seq_check(id, tier, replay)
         }
+        "C12" => c12_check(tier, replay),
         _ => {
             eprintln!("no check for property {id}");
             2
         }
     }
+}
+
+// ---------------------------------------------------------------------------------------------
+// C12: threshold sweep + E-SEQ
+
+fn sweep_signature(f: &Value) -> String {
+    let d = f["config"][0].as_i64().unwrap_or(0);
+    let v = f["config"][1].as_u64().unwrap_or(0);
+    let zone = if d > i64::MAX / 3 && v > (u32::MAX / 3) as u64 {
+        "both-targets-above-a-third-of-their-type"
+    } else if d > i64::MAX / 3 {
+        "days-target-above-a-third-of-i64"
+    } else if v > (u32::MAX / 3) as u64 {
+        "versions-target-above-a-third-of-u32"
+    } else {
+        "targets-in-range"
+    };
+    format!("sweep|{}|{}|{}", f["class"].as_str().unwrap_or(""), f["backend"].as_str().unwrap_or(""), zone)
+}
+
+fn c12_check(tier: &str, replay: Option<&str>) -> i32 {
+    let quick = tier != "thorough";
+    let mut rep = Report::new("C12", tier, "model_checking");
+    if let Some(file) = replay {
+        // sweep replays carry one configuration; E-SEQ replays carry a history
+        let s = std::fs::read_to_string(file).unwrap_or_default();
+        let v: Value = serde_json::from_str(&s).unwrap_or(Value::Null);
+        if v["replay"]["engine"] == "sweep" {
+            let mut pool = crate::pool::Pool::spawn(1, "sweep", &json!({"seed": seed()}));
+            let r = pool.map(&[json!({"days": v["replay"]["config"][0], "versions": v["replay"]["config"][1]})]);
+            let mut n = 0;
+            if let Some(Ok(res)) = r.first() {
+                for f in res["findings"].as_array().cloned().unwrap_or_default() {
+                    if sweep_signature(&f) == v["signature"].as_str().unwrap_or("") {
+                        println!("VIOLATION property=C12 replay={file}");
+                        println!("  {}", f["msg"].as_str().unwrap_or(""));
+                        n += 1;
+                        break;
+                    }
+                }
+            }
+            return if n > 0 { 1 } else { println!("replay of {file}: no violation of C12"); 0 };
+        }
+        return seq_replay("C12", tier, file, &c12_seq_runs(tier));
+    }
+    // (a) sweep
+    let dts = crate::esweep::day_targets(quick);
+    let vts = crate::esweep::version_targets(quick);
+    let mut tasks = vec![];
+    for d in &dts {
+        for v in &vts {
+            tasks.push(json!({"days": d, "versions": v}));
+        }
+    }
+    let mut pool = crate::pool::Pool::spawn(threads(), "sweep", &json!({"seed": seed()}));
+    let results = pool.map(&tasks);
+    drop(pool);
+    let mut cases = 0u64;
+    let mut outcomes = std::collections::BTreeSet::new();
+    let mut disagreements = 0u64;
+    let mut sweep_samples = vec![];
+    for (k, r) in results.iter().enumerate() {
+        match r {
+            Ok(res) => {
+                cases += res["cases"].as_u64().unwrap_or(0);
+                disagreements += res["backend_disagreements"].as_u64().unwrap_or(0);
+                for o in res["outcomes"].as_array().cloned().unwrap_or_default() {
+                    outcomes.insert(o.as_str().unwrap_or("").to_string());
+                }
+                if sweep_samples.len() < 4 {
+                    sweep_samples.push(json!({"config": tasks[k], "cases": res["sample"]}));
+                }
+                for f in res["findings"].as_array().cloned().unwrap_or_default() {
+                    rep.violations.push(Violation {
+                        property: "C12".into(),
+                        signature: sweep_signature(&f),
+                        message: format!("[sweep/{}] {}", f["backend"].as_str().unwrap_or(""), f["msg"].as_str().unwrap_or("")),
+                        replay: json!({"engine": "sweep", "config": f["config"], "days": f["days"], "since": f["since"], "backend": f["backend"]}),
+                    });
+                }
+            }
+            Err(e) => rep.machinery_errors.push(format!("sweep worker: {e}")),
+        }
+    }
+    rep.cov("sweep_configurations", json!(tasks.len()));
+    rep.cov("sweep_cases", json!(cases));
+    rep.cov("sweep_day_targets", json!(dts));
+    rep.cov("sweep_version_targets", json!(vts));
+    rep.cov("sweep_outcomes", json!(outcomes.into_iter().collect::<Vec<_>>()));
+    rep.cov("sweep_backend_disagreements", json!(disagreements));
+    // (b) histories
+    let runs = c12_seq_runs(tier);
+    let mut runs_json = vec![];
+    let mut exhaustive = true;
+    let mut samples: Vec<Value> = sweep_samples;
+    for (name, p) in &runs {
+        let r = eseq::run(p);
+        exhaustive &= r.exhaustive;
+        for s in r.samples.iter().take(4) {
+            samples.push(s.clone());
+        }
+        absorb_seq(&mut rep, "C12", name, p, &r, &mut runs_json);
+    }
+    rep.cov("runs", json!(runs_json));
+    rep.cov("samples", json!(samples));
+    rep.cov("exhaustive", json!(exhaustive));
+    rep.assume("urgency rounding: floor(3t/2) is the anchored high threshold; at that single point of an odd target both low and high are accepted");
+    rep.assume("snapshot ages are installed by rewriting the stored timestamp through StorageTxn::set_snapshot (time passing); the counter is swept to u32::MAX-1");
+    rep.finish()
+}
+
+fn c12_seq_runs(tier: &str) -> Vec<(String, SeqParams)> {
+    let quick = tier != "thorough";
+    let mk = |name: &str, cfg: Config, ages: &[i64], depth: usize| {
+        (
+            name.to_string(),
+            SeqParams {
+                alphabet: alpha(1, 2, false, false, true, ages),
+                cfg,
+                specs: vec![MEM_LIB, SQL_LIB, MEM_HTTP],
+                max_depth: depth,
+                unmerged_depth: 1,
+                monitors: vec!["C12"],
+                reopen_probe: false,
+                solo_runs: false,
+                max_states: if quick { 6000 } else { 400_000 },
+                wall_cap_s: if quick { 40.0 } else { 1500.0 },
+                threads: threads(),
+                seed: seed(),
+            },
+        )
+    };
+    let mut v = vec![
+        mk("one client, targets (2 days, 2 versions), snapshot ageing 1..3 days", Config { days: 2, versions: 2 }, &[1, 2, 3], if quick { 6 } else { 9 }),
+        mk("one client, targets (3 days, 3 versions): odd targets", Config { days: 3, versions: 3 }, &[2, 3, 4, 5], if quick { 5 } else { 9 }),
+    ];
+    if !quick {
+        for (d, vv) in [(0, 0), (1, 1), (0, 3), (3, 0), (1, 2), (2, 1)] {
+            v.push(mk(&format!("one client, targets ({d} days, {vv} versions)"), Config { days: d, versions: vv }, &[1, 2, 3, 4, 5], 8));
+        }
+    }
+    v
 }
 
 // ---------------------------------------------------------------------------------------------
